@@ -192,7 +192,7 @@ def run_case(case_seed, maxsite, fails, stats):
             cs = rng.randrange(2 ** 31)
             mp = cplx(mp, cs)
             lines.append("%s = cplx(%s, %d)" % (name, name, cs))
-        co = rng.choice([None, None, 2.0, -0.5, "c"])
+        co = rng.choice([None, None, 2.0, -0.5, "c", "c"])      # incl. REAL tensors with a COMPLEX prefactor
         if co == "c":
             co = complex(rng.uniform(-1, 1), rng.uniform(0.2, 1))
         if co is not None:
@@ -285,11 +285,85 @@ def run_case(case_seed, maxsite, fails, stats):
     for step in range(nops):
         opk = rng.choice(["add", "add", "sub", "scale", "conj", "apply", "apply", "opop", "opadd", "conj_trans", "opscale",
                           "dot", "norm", "distance", "distance", "opdot", "opdistance", "dm", "dmapply", "dmadd", "contract",
-                          "csum", "csum", "neardist", "neardist", "neardist", "evolved", "evolved", "evolved"])
+                          "csum", "csum", "neardist", "neardist", "neardist", "evolved", "evolved", "evolved",
+                          "measure", "measure", "measure", "fresh-object", "fresh-object"])
         stats.setdefault("ops", {})
         try:
             name = fresh()
-            if opk == "evolved":
+            if opk == "measure":
+                # 1..3 measuring / conjugating calls on the same operand (odd and even counts): none may change the value
+                # (coeff x tensors) of any operand; afterwards the operand is used in an arithmetic operation against dense
+                kind = rng.choice(["state", "state", "state", "op"])
+                a = pick(kind)
+                if a is None:
+                    continue
+                b = pick(kind, a.q)
+                Oq = pick("op")
+                for _ in range(rng.randint(1, 3)):
+                    m = rng.choice(["norm", "mp_norm", "dot", "distance", "angle", "conj", "expectation"] if kind == "state" else ["mp_norm", "dot", "distance", "angle", "conj", "conj_trans"])
+                    stats.setdefault("measure", {})
+                    stats["measure"][m] = stats["measure"].get(m, 0) + 1
+                    na_, nb_ = float(np.linalg.norm(a.ref)), float(np.linalg.norm(b.ref))
+                    ca, cb = a.coeff(), b.coeff()
+                    if m == "norm":
+                        val = a.mp.norm; lines.append("%s.norm" % a.expr); exp = na_; mag = na_
+                    elif m == "mp_norm":
+                        val = a.mp.mp_norm; lines.append("%s.mp_norm" % a.expr); exp = na_ / abs(ca); mag = exp
+                    elif m == "dot":
+                        val = a.mp.dot(b.mp); lines.append("%s.dot(%s)" % (a.expr, b.expr)); exp = np.sum((a.ref / ca) * (b.ref / cb)); mag = na_ * nb_ / abs(ca * cb)
+                    elif m == "distance":
+                        if a is b:
+                            continue
+                        val = a.mp.distance(b.mp); lines.append("%s.distance(%s)" % (a.expr, b.expr)); exp = float(np.linalg.norm(a.ref - b.ref)); mag = 1e3 * (na_ + nb_)
+                    elif m == "angle":
+                        val = a.mp.angle(b.mp); lines.append("%s.angle(%s)" % (a.expr, b.expr)); exp = abs(np.sum((a.ref / ca).conj() * (b.ref / cb))); mag = na_ * nb_ / abs(ca * cb)
+                    elif m == "conj":
+                        val = exp = mag = None
+                        a.mp.conj(); lines.append("%s.conj()" % a.expr)
+                    elif m == "conj_trans":
+                        val = exp = mag = None
+                        a.mp.conj_trans(); lines.append("%s.conj_trans()" % a.expr)
+                    else:
+                        if Oq is None or any(Oq.q):
+                            continue
+                        val = a.mp.expectation(Oq.mp); lines.append("%s.expectation(%s)" % (a.expr, Oq.expr))
+                        # Mps.expectation is the expectation of the TENSOR part (prefactor not included; C07's domain)
+                        exp = np.vdot(a.ref / ca, Oq.ref @ (a.ref / ca)); mag = (na_ / abs(ca)) ** 2 * float(np.linalg.norm(Oq.ref))
+                    stats["checks"] = stats.get("checks", 0) + 1
+                    if val is not None and not abs(val - exp) <= 1e-9 * mag:
+                        report("measure:%s:value" % m, {"impl": repr(val), "expected": repr(exp), "kind": kind, "coeffs": [repr(ca), repr(cb)]},
+                               "print('the value returned by the last measuring call above was', %r, 'expected', %r); sys.exit(1)" % (repr(val), repr(exp)))
+                        return
+                    if not (check(a, "measure-%s-operand-unchanged" % m, ("",)) and check(b, "measure-%s-operand-unchanged" % m, ("",))):
+                        return
+                # use it: a + b against dense
+                if a is not b:
+                    mp = a.mp.add(b.mp); ref = a.ref + b.ref
+                    if np.linalg.norm(ref) > 1e-6 * (np.linalg.norm(a.ref) + np.linalg.norm(b.ref)):
+                        lines.append("%s = %s.add(%s); r_%s = r_%s + r_%s" % (name, a.expr, b.expr, name, a.expr, b.expr))
+                        o = Obj(mp, ref, kind, name); o.q = a.q; o.refexpr = "r_" + name; o.mag = float(np.linalg.norm(a.ref) + np.linalg.norm(b.ref))
+                        pool.append(o)
+                        if not check(o, "add-after-measure"):
+                            return
+            elif opk == "fresh-object":
+                # conj / conj_trans / copy must return NEW objects: mutating the result in place must not touch the operand
+                a = rng.choice(pool)
+                how = rng.choice(["conj", "copy"] + (["conj_trans"] if a.kind == "op" else []))
+                r = getattr(a.mp, how)()
+                lines.append("%s = %s.%s()" % (name, a.expr, how))
+                stats["checks"] = stats.get("checks", 0) + 1
+                if r is a.mp:
+                    report("%s:returns-operand" % how, {"kind": a.kind, "complex_tensors": bool(a.mp.is_complex), "coeff": repr(a.coeff())},
+                           "print('%s() returned the operand itself'); sys.exit(1 if %s is %s else 0)" % (how, name, a.expr))
+                    return
+                v = rng.choice([2.0, -0.5, complex(0.3, 0.8)])
+                r.scale(v, inplace=True)
+                if a.kind != "op":
+                    r.coeff = r.coeff * 3
+                lines.append("%s.scale(%r, inplace=True)" % (name, v))
+                if not check(a, "%s-then-inplace-operand-unchanged" % how, ("",)):
+                    return
+            elif opk == "evolved":
                 # a state / density operator that came out of an evolution step (every scheme) or of optimize_mps is an
                 # operand like any other: apply / add / dot / MpDm.apply on it must work and agree with dense algebra
                 if ncomp_trivial:
@@ -658,6 +732,10 @@ def run_case(case_seed, maxsite, fails, stats):
                     if not check(o, "mpdm-add"):
                         return
             stats["ops"][opk] = stats["ops"].get(opk, 0) + 1
+            # generic: NO operation (arithmetic or measuring) may change the dense value (coeff x tensors) of any live object
+            for o_ in pool:
+                if not check(o_, "%s-live-object-unchanged" % opk, ("",)):
+                    return
         except Exception as ex:
             tb = traceback.format_exc()
             report("%s:exception" % opk, {"op": opk, "exception": repr(ex), "tb": tb[-800:]},
